@@ -736,3 +736,62 @@ Lemma write_inert c s id wf : c_store_nocb c = false -> step c s (EWrite id wf) 
 Proof.
   intro H. cbn [step]. unfold write_nocb. rewrite H, !andb_false_r. reflexivity.
 Qed.
+
+(* ------------------------------------------------------------ one generator: the ids of all requests of a history are distinct *)
+Lemma ctr_step c s e :
+  ctr (step c s e) = match e with
+                     | ESend k _ => match getw k s with None => (ctr s + 1)%N | Some _ => ctr s end
+                     | _ => ctr s
+                     end.
+Proof.
+  destruct e as [k wf|id wf|wf|id b|id|k|k|id| |]; cbn [step].
+  - destruct (getw k s); [reflexivity|]. destruct (negb (live s)); [|destruct wf]; reflexivity.
+  - unfold write_nocb. destruct (live s && c_store_nocb c && negb wf); [|destruct (live s && c_store_nocb c)]; reflexivity.
+  - unfold write_nocb. cbn. destruct (live s && c_store_nocb c && negb wf); [|destruct (live s && c_store_nocb c)]; reflexivity.
+  - destruct (alookup Z.eqb id (table s)) as [[k|tok]|]; [| |reflexivity].
+    + destruct (getw k s) as [w|]; [|reflexivity]. unfold signal.
+      destruct (w_stat w), (c_cap c); try (destruct (w_tok w <? _)%nat; [|destruct (c_nonblock c)]); reflexivity.
+    + destruct (tok <? c_cap c)%nat; [|destruct (c_nonblock c)]; reflexivity.
+  - destruct (remove1 id (premoves s)); reflexivity.
+  - destruct (getw k s) as [w|]; [|reflexivity]. destruct (w_stat w); try reflexivity.
+    destruct (w_tok w); [reflexivity|]. destruct (w_resp w); [|reflexivity].
+    destruct (negb (c_store_first c) && existsb (Z.eqb (w_id w)) (premoves s)); reflexivity.
+  - destruct (getw k s) as [w|]; [|reflexivity]. destruct (w_stat w); try reflexivity.
+    destruct (c_tmo_removes c); reflexivity.
+  - destruct (c_pong_removes c); reflexivity.
+  - reflexivity.
+  - reflexivity.
+Qed.
+
+Lemma drawn_range c evs : forall s x, In x (drawn c s evs) ->
+  exists n, x = id_of n /\ (ctr s < n <= ctr s + N.of_nat (length evs))%N.
+Proof.
+  induction evs as [|e r IH]; intros s x I; [contradiction|].
+  cbn [drawn] in I. apply in_app_or in I. destruct I as [I|I].
+  - destruct e; try contradiction. destruct (getw w s); [contradiction|].
+    destruct I as [<-|[]]. exists (ctr s + 1)%N. split; [reflexivity|]. cbn [length]. lia.
+  - destruct (IH _ _ I) as (n & -> & R). exists n. split; [reflexivity|].
+    rewrite ctr_step in R. cbn [length].
+    destruct e; try lia. destruct (getw w s); lia.
+Qed.
+
+Theorem drawn_nodup c evs : forall s,
+  (N.of_nat (length evs) < two32)%N -> NoDup (drawn c s evs).
+Proof.
+  induction evs as [|e r IH]; intros s L; [constructor|].
+  cbn [drawn]. cbn [length] in L.
+  assert (REST : NoDup (drawn c (step c s e) r)) by (apply IH; lia).
+  destruct e; try exact REST. destruct (getw w s) eqn:G; [exact REST|].
+  cbn [app]. constructor; [|exact REST].
+  intro I. destruct (drawn_range _ _ _ _ I) as (n & E & R).
+  rewrite ctr_step, G in R.
+  apply (id_of_inj (ctr s + 1) n); [lia| |exact E]. unfold two32 in *. lia.
+Qed.
+
+(* were such a request sent under an id of the listener's generator (as heartbeats are), its
+   answer could carry the id of a pending caller: that caller is handed the other request's answer *)
+Example second_generator_confuses :
+  let evs := [ESend 1 false; EHeartbeat false; EDeliver (id_of 8) 99; EWake 1] in
+  stat_of 1 (run fixed_cfg (init 7 7 true) evs) = Some (DoneOk 99)
+  /\ id_of (7 + 1) = id_of (7 + 1).
+Proof. vm_compute. split; reflexivity. Qed.
